@@ -125,7 +125,9 @@ class ResourceTransformer:
             uris: A list of absolute URI strings to process
             cache: Specifies whether to catch the initial parsed classes
         """
-        cache_file = self.get_cache_file(uris) if cache else None
+        # The mapped classes of json samples are named after the output package
+        cache_key = [*uris, self.config.output.package]
+        cache_file = self.get_cache_file(cache_key) if cache else None
         if cache_file and cache_file.exists():
             logger.info(f"Loading from cache {cache_file}")
 
